@@ -198,6 +198,64 @@ def run(tier, rep):
             if ok and fl(open(f"{proj}/out/linked.go").read()) != fl(whole["go"]):
                 rep.violation("float-literal-changes-through-artifacts", {"whole": fl(whole["go"]), "linked": fl(open(f"{proj}/out/linked.go").read())})
     rep.coverage["isolation_projects_equivalent"] = equiv
+    # ---- packages without any function body (types only, traits only, externs only): they still take part in linking
+    specials = {
+        "types-only": {
+            "Model": "package Model\n\nstruct Pt { x: int32, y: int32 }\nenum Shape { Circle(int32), Rect(int32, int32) }\nstruct Wrap[T] { v: T }\n",
+            "Main": "package Main\nimport Model\n\nfn area(s: Model::Shape) -> int32 { match s { Model::Shape::Circle(r) => r * r * 3, Model::Shape::Rect(w, h) => w * h } }\n"
+                    "fn main() {\n    let p = Model::Pt { x: 3, y: 4 };\n    let w = Model::Wrap { v: p.x + p.y };\n"
+                    "    let _ = string_println(int32_to_string(area(Model::Shape::Circle(2)) + area(Model::Shape::Rect(2, 5)) + w.v));\n    ()\n}\n"},
+        "traits-only": {
+            "Api": "package Api\n\ntrait Named { fn name(Self) -> string; }\ntrait Sized { fn size(Self) -> int32; }\n",
+            "Main": "package Main\nimport Api\n\nstruct It { n: int32 }\nimpl Api::Named for It { fn name(self: It) -> string { \"it\" + int32_to_string(self.n) } }\n"
+                    "impl Api::Sized for It { fn size(self: It) -> int32 { self.n } }\nfn via(d: dyn Api::Named) -> string { Api::Named::name(d) }\n"
+                    "fn total[T: Api::Sized](x: T) -> int32 { Api::Sized::size(x) + 1 }\n"
+                    "fn main() {\n    let i = It { n: 4 };\n    let _ = string_println(via(i) + int32_to_string(total(i)));\n    ()\n}\n"},
+        "externs-only": {
+            "Strs": "package Strs\n\nextern \"go\" \"strings\" \"ToUpper\" to_upper(s: string) -> string\nextern \"go\" \"strings\" \"Repeat\" repeat(s: string, n: int32) -> string\n",
+            "Main": "package Main\nimport Strs\n\nfn main() {\n    let _ = string_println(Strs::to_upper(\"abc\") + Strs::repeat(\"ab\", 3));\n    ()\n}\n"},
+    }
+    for sname, pk in specials.items():
+        proj = os.path.join(root, "special_" + sname)
+        dep = [p_ for p_ in pk if p_ != "Main"][0]
+        os.makedirs(f"{proj}/{dep}"); os.makedirs(proj + "/out")
+        open(f"{proj}/{dep}/lib.gom", "w").write(pk[dep])
+        open(f"{proj}/main.gom", "w").write(pk["Main"])
+        whole = gv("compile", [{"id": sname, "path": proj + "/main.gom"}])[0]
+        if whole["verdict"] != "ok":
+            if sname == "externs-only":
+                continue          # extern syntax differs between versions of the language: only exercised when it compiles
+            raise ToolError(f"special project {sname} does not compile as a whole: " + str([d_["msg"] for d_ in whole.get("diags", [])][:3]))
+        sep_ok = True
+        for p2, f2 in ((dep, f"{proj}/{dep}/lib.gom"), ("Main", proj + "/main.gom")):
+            ok, err, pan = cli(["build", "--package", p2, "--input", f2, "--interface-path", f"{proj}/out", "--output", f"{proj}/out/{p2}"])
+            steps += 1
+            if pan:
+                rep.violation(f"panic:build:special:{sname}", {"package": p2, "stderr": err})
+            sep_ok = sep_ok and ok
+        if not sep_ok:
+            rep.violation(f"accepted-one-way-only:special:{sname}", {"whole_program": "ok", "separate": "rejected", "stderr": err})
+            continue
+        ok, err, pan = cli(["link", "--input", f"{proj}/out/{dep}.core", f"{proj}/out/Main.core", "--output", f"{proj}/out/linked.go"])
+        steps += 1
+        if pan:
+            rep.violation(f"panic:link:special:{sname}", {"stderr": err})
+            continue
+        if not ok:
+            rep.violation(f"link-verdict:special:{sname}:expected-ok", {"stderr": err})
+            continue
+        links += 1
+        for nm, text in ((f"whole:special-{sname}:0", whole["go"]), (f"linked:s:special-{sname}:0:declaration-only-package", open(f"{proj}/out/linked.go").read())):
+            rec, e = gopipe.go_record(nm, text)
+            if e:
+                rep.violation(f"go-syntax:special:{sname}", {"error": e, "which": nm})
+            else:
+                go_recs.append(rec)
+        # the linked text imports what the whole-program text imports (extern packages)
+        import re as _re2
+        imps = lambda t: sorted(_re2.findall(r'^\s+"([\w/]+)"$', t, _re2.M))
+        if imps(open(f"{proj}/out/linked.go").read()) != imps(whole["go"]):
+            rep.violation(f"linked-imports-differ:special:{sname}", {"whole": imps(whole["go"]), "linked": imps(open(f"{proj}/out/linked.go").read())})
     # ---- GoStatic + GoSem over all Go texts; linked outcome must equal the whole-program outcome of the same (shape, flavour)
     static, st1 = gopipe.run_sharded("GoStatic", "GoStatic.cfg", go_recs, name="c14-static")
     sem_recs = [dict(rc, ast=gohoist.hoist(rc["ast"])) for rc in go_recs]
